@@ -364,6 +364,15 @@ def check_case(case, obs, diag, want=("C01", "C10", "C05")):
                     exp = exp_out[:len(got)] if tot >= dsp["end"] else exp_out
                     if dsp["end"] == 0:
                         exp = []
+                    if u in cyc and tot >= dsp["end"] and dsp["end"] != 0:
+                        # a node on a cycle serves a later sibling's nested emission first: what the slice took before it
+                        # stopped listening is SOME `len(got)` of the node's outputs, not the first ones
+                        pool = Counter(repr(e[0]) for e in exp_out)
+                        if all(pool[k_] >= n_ for k_, n_ in Counter(repr(g[0]) for g in got).items()):
+                            mpool = Counter(repr((e[0], tuple(e[1]))) for e in exp_out)
+                            if all(mpool[k_] >= n_ for k_, n_ in Counter(repr((g[0], tuple(g[1]))) for g in got).items()):
+                                continue
+                            exp = [e for e in exp_out if any(repr(e[0]) == repr(g[0]) for g in got)][:len(got)]
                 multi_out = sp["k"] in ("flatten", "zip_latest")
                 if u in cyc and sp["k"] == "zip_latest":
                     # a zip_latest that is re-entered in the middle of draining its backlog pairs the remaining backlog
